@@ -136,6 +136,16 @@ class Layout:
 
     def gen_reg(self, name, off):
         r = self.rnd
+        prev = [it for it in self.items if it.kind == 'reg' and any(f['kind'] in ('mem', 'memu') for f in it.fields)]
+        if prev and r.random() < 0.4:
+            # the same field shapes as an earlier register, but other defaults (field types are cached templates: the default
+            # is part of what distinguishes them)
+            import copy
+            fields = copy.deepcopy(r.choice(prev).fields)
+            for f in fields:
+                if f['kind'] in ('mem', 'memu'):
+                    f['default'] = (f['default'] + r.randint(1, (1 << f['w']) - 1)) % (1 << f['w']) if f['w'] > 1 else 1 - f['default']
+            return Item('reg', name, off, 1, fields=fields, flag=None, rdn=False, wrn=False)
         fields = []
         bit = 0
         fi = 0
